@@ -492,6 +492,12 @@ FIXED += [
      json.loads('{"result": "v8", "steps": [{"out": "v0", "table": "t1", "verb": "source"}, {"in": "v0", "items": [["b_r", ["fn", "min", [["fn", "fill_null", [["lit", -11], ["fn", "add", [["col", {"c": "a"}], ["col", {"n": "a", "v": "v0"}]], {}]], {}]], {"filter": [["fn", "fill_null", [["fn", "gt", [["col", {"n": "a", "v": "v0"}], ["col", {"n": "a", "v": "v0"}]], {}], ["fn", "hany", [["col", {"c": "a"}], ["col", {"n": "a", "v": "v0"}], ["col", {"c": "a"}], ["col", {"n": "a", "v": "v0"}], ["lit", false], ["col", {"n": "a", "v": "v0"}]], {}]], {}], ["fn", "is_not_null", [["col", {"c": "a"}]], {}]]}]]], "out": "v5", "verb": "summarize"}, {"out": "v6", "table": "t0", "verb": "source"}, {"in": "v6", "items": [["b", ["lit", -139.0, "float64"]]], "out": "v7", "verb": "mutate"}, {"how": "inner", "in": "v5", "on": [["fn", "eq", [["col", {"n": "b_r", "v": "v5"}], ["col", {"n": "b", "v": "v7"}]], {}]], "out": "v8", "right": "v7", "verb": "join"}], "tables": [{"cols": [["id", "int64"], ["y", "datetime"], ["c", "datetime"], ["x", "int64"]], "name": "t0", "rows": []}, {"cols": [["id", "int64"], ["x", "str"], ["d", "datetime"], ["a", "bool"]], "name": "t1", "rows": []}]}')),
 ]
 
+FIXED += [
+    ('F68-polars-unstable-row-order', 'C06', 'Polars distinct union and summarize keep a reproducible row order',
+     'Polars (intermittent): a left join with a non-equality condition numbers the rows of its lazy input, which is evaluated twice; after a distinct union (unique()) or a grouped summarize the two evaluations could order the rows differently and the right columns were attached to the wrong rows',
+     json.loads('{"result": "v19", "steps": [{"out": "v0", "table": "t0", "verb": "source"}, {"distinct": true, "in": "v0", "out": "v5", "right": "v0", "verb": "union"}, {"name": "r", "out": "v11", "table": "t0", "verb": "source"}, {"how": "left", "in": "v5", "on": [["fn", "le", [["col", {"n": "x", "v": "v11"}], ["col", {"n": "id", "v": "v5"}]], {}]], "out": "v12", "right": "v11", "suffix": "_r", "verb": "join"}, {"out": "v13", "table": "t0", "verb": "source"}, {"in": "v13", "out": "v14", "preds": [["fn", "ge", [["col", {"c": "x"}], ["lit", -15]], {}]], "verb": "filter"}, {"how": "left", "in": "v12", "on": [["fn", "le", [["col", {"n": "a", "v": "v5"}], ["col", {"n": "a", "v": "v14"}]], {}]], "out": "v16", "right": "v14", "verb": "join"}, {"in": "v16", "items": [["c", ["fn", "mean", [["col", {"n": "x", "v": "v16"}]], {}]]], "out": "v19", "verb": "summarize"}], "tables": [{"cols": [["id", "int64"], ["x", "int64"], ["a", "datetime"]], "name": "t0", "rows": [[12, -19, {"$dt": "2000-01-01T00:00:00"}], [4, 10, {"$dt": "1999-12-31T23:59:59"}]]}], "intermittent": true}')),
+]
+
 
 def main():
     log = subprocess.run(["git", "-C", "/repo", "log", "--format=%h %s"], capture_output=True, text=True).stdout.splitlines()
